@@ -43,12 +43,24 @@ def rewritten(path):
 def impl_update(tmp, data, uci_addr, part_addr, n, via="lib"):
     """data: bytes of the envelope file, or None (the file does not exist).  Returns (storage image, partition image)."""
     m = _mod()
-    inp, st, pt = (os.path.join(tmp, x) for x in ("envelope.suit", "storage.hex", "partition.hex"))
-    if os.path.exists(inp):
-        os.remove(inp)
+    st, pt = (os.path.join(tmp, x) for x in ("storage.hex", "partition.hex"))
+    # the input is named through a symbolic link to a directory and back up: <tmp>/build/../envelope.suit with build -> real/out is
+    # the file <tmp>/real/envelope.suit for the operating system; <tmp>/envelope.suit (what collapsing ".." textually gives) is
+    # another file
+    real = os.path.join(tmp, "real")
+    os.makedirs(os.path.join(real, "out"), exist_ok=True)
+    link = os.path.join(tmp, "build")
+    if not os.path.islink(link):
+        os.symlink(os.path.join(real, "out"), link)
+    with open(os.path.join(tmp, "envelope.suit"), "wb") as fh:
+        fh.write(b"\xd8\x6b\xa0" + b"decoy" * 8)
+    target = os.path.join(real, "envelope.suit")
+    inp = os.path.join(link, "..", "envelope.suit")
+    if os.path.exists(target):
+        os.remove(target)
     _stale(st, pt)
     if data is not None:
-        with open(inp, "wb") as fh:
+        with open(target, "wb") as fh:
             fh.write(data)
     if via == "main":
         m.main(image="update", input_file=inp, storage_output_file=st, dfu_partition_output_file=pt,
